@@ -1049,6 +1049,7 @@ func TestVerifC04(t *testing.T) {
 	defer s.Close()
 	defer vfC04W.stop()
 	maxVer := int(rdb.RdbVersion)
+	vfc20.MaxVer = maxVer
 	rnd := vfutil.NewRand(vfutil.Seed())
 
 	// wall-clock watchdog: a case that does not finish is reported with its input
